@@ -3,6 +3,10 @@
 //   hx_raft replay  --file F --out DIR                    explicit event lists, one per line: "[G:d1,d2 ]<nodes> (T ..) (D ..) ..."
 //   hx_raft live    --seed S --n N --out DIR              fault-free timed simulations (C30): real timeouts, every message delivered
 //   hx_raft explore --depth D --budget B --out DIR        bounded exhaustive exploration of 3-node clusters (search only)
+//   hx_raft probe                                         print the revision bits "ab" of the election code found by behaviour
+// Every sub-command takes --rev <ab> (default 00): the revision of the election code the check read from the source
+// tree (a: vote_request adopts the term, b: response() counts a Vote/Ok only for the current term); it is written
+// into the case lines (`raft run r<ab> ...`) so that the model runs the same revision.
 // Files written to DIR: cases.txt (input of the model driver), impl.txt (implementation's observations, same order),
 // oracle.txt (direct violations of the properties on the implementation), stats.json.
 mod raft {
@@ -61,9 +65,9 @@ impl Out {
         }
         let evtxt = show_events(n, evs);
         let caseno = self.cases.len() / 2;
-        self.cases.push(format!("raft run {}", evtxt));
+        self.cases.push(format!("raft run r{} {}", sim::rev_str(), evtxt));
         self.imp.push(lines.join(" ;; "));
-        self.cases.push(format!("raft flags {}", evtxt));
+        self.cases.push(format!("raft flags r{} {}", sim::rev_str(), evtxt));
         self.imp.push(w.orc.flags());
         if let Some(data) = goal {
             if !w.synced(data) {
@@ -101,11 +105,44 @@ impl Out {
         wl("oracle.txt", &self.oracle);
         let mut s = String::from("{\n \"dist\": {");
         s.push_str(&self.stats.iter().map(|(k, v)| format!("{}: {}", json_str(k), v)).collect::<Vec<_>>().join(", "));
-        s.push_str(&format!("}},\n \"evaluations\": {},\n \"distinct_nontrivial\": {},\n \"events\": {},\n \"samples\": [", self.cases.len() / 2, self.nontrivial, self.events));
+        s.push_str(&format!("}},\n \"rev\": {},\n \"probe_rev\": {},\n \"evaluations\": {},\n \"distinct_nontrivial\": {},\n \"events\": {},\n \"samples\": [",
+            json_str(&sim::rev_str()), json_str(&probe_rev()), self.cases.len() / 2, self.nontrivial, self.events));
         s.push_str(&self.samples.iter().map(|x| json_str(x)).collect::<Vec<_>>().join(", "));
         s.push_str("]\n}\n");
         std::fs::write(format!("{}/stats.json", out), s).unwrap();
     }
+}
+
+// ---------------------------------------------------------------- revision probe
+
+/// Which of the two election repairs the raft.rs under test has, determined by BEHAVIOUR on one scripted
+/// 3-node history (independent of --rev, which the check derives from the source text; the check compares the two):
+///   a = after granting a Vote request of term 1 the voter's term is 1 (vote_request adopts the term);
+///   b = a candidate of term 2 that receives the Ok answer to its Vote request of term 1 does not mark the voter.
+/// Returns "ab" (or "??" if the scripted history did not unfold as expected).
+fn probe_rev() -> String {
+    let mut w = World::new(3);
+    let find = |w: &World, pre: &str| -> Option<usize> { w.net.iter().position(|m| m.show().starts_with(pre)) };
+    let mut deliver = |w: &mut World, pre: &str| -> bool {
+        match find(w, pre) { Some(k) => { w.apply(&Ev::Deliver { k, elapsed: 0 }); true } None => false }
+    };
+    // node 0: pre-election, pre-vote of node 1, candidate of term 1 (Vote requests of term 1 stay in flight)
+    w.apply(&Ev::Tick { i: 0, elapsed: 0, due: vec![] });
+    if !deliver(&mut w, "Q(P:0>1:") || !deliver(&mut w, "R(ok;P:0>1:") { return "??".to_string(); }
+    if !(w.nodes[0].vx_is_candidate() && w.nodes[0].vx_term() == 1) { return "??".to_string(); }
+    // term timeout, second pre-election, candidate of term 2
+    w.apply(&Ev::Tick { i: 0, elapsed: sim::TT_MS + 1, due: vec![] });
+    w.apply(&Ev::Tick { i: 0, elapsed: 0, due: vec![] });
+    if !deliver(&mut w, "Q(P:0>1:") || !deliver(&mut w, "R(ok;P:0>1:") { return "??".to_string(); }
+    if !(w.nodes[0].vx_is_candidate() && w.nodes[0].vx_term() == 2) { return "??".to_string(); }
+    // node 2 grants the old Vote request of term 1
+    if !deliver(&mut w, "Q(V:0>2:t1:") { return "??".to_string(); }
+    let a = w.nodes[2].vx_term() == 1;
+    // node 0 (candidate of term 2) receives that answer
+    if find(&w, "R(ok;V:0>2:t1:").is_none() { return "??".to_string(); }
+    deliver(&mut w, "R(ok;V:0>2:t1:");
+    let b = !w.nodes[0].vx_peers()[2].3 && !w.nodes[0].vx_is_leader();
+    format!("{}{}", a as u8, b as u8)
 }
 
 // ---------------------------------------------------------------- random adversarial generator
@@ -326,6 +363,10 @@ fn main() {
     let outdir = arg(&args, "--out", ".");
     std::fs::create_dir_all(&outdir).unwrap();
     std::panic::set_hook(Box::new(|_| {}));
+    let rev = arg(&args, "--rev", "00");
+    if rev.len() != 2 || !rev.chars().all(|c| c == '0' || c == '1') { eprintln!("bad --rev {}", rev); std::process::exit(2); }
+    sim::set_rev(&rev[0..1] == "1", &rev[1..2] == "1");
+    if cmd == "probe" { println!("{}", probe_rev()); return; }
     let mut out = Out::default();
     let mut rng = Rng::new(seed);
     match cmd.as_str() {
